@@ -19,9 +19,11 @@ def gen_cases(ctx, n_grammars, n_inputs):
     fams = [("reduced", lambda: G.reduced_random_grammar(rng)),
             ("nullable", lambda: G.nullable_heavy(rng)),
             ("exprnoprec", lambda: G.expr_grammar(rng, with_prec=False)),
-            ("notlalr", lambda: G.not_lalr_template(rng))]
+            ("notlalr", lambda: G.not_lalr_template(rng)),
+            ("layered", lambda: G.layered_grammar(rng).reduced()),
+            ("chain", lambda: G.chain_grammar(rng).reduced())]
     while len(cases) < n_grammars:
-        name, f = rng.choices(fams, [6, 4, 1, 3])[0]
+        name, f = rng.choices(fams, [6, 4, 1, 3, 6, 3])[0]
         g = f()
         if g is None or not g.is_reduced() or g.derives_cycle():
             continue
